@@ -1,6 +1,8 @@
 CONSTANTS
   MaxBlocks = 4
   MaxInv = 3
+  FileLimit = 3
+  PosBeforeRollover = FALSE
   MaxRestarts = 3
   TxU <- TxUDef
   Lists <- ListsThorough
@@ -12,6 +14,6 @@ CONSTANTS
 INIT InitS
 NEXT NextS
 VIEW ViewS
-INVARIANTS UtxoIsReplay NoIndexErrorClean OnlyKnownError SyncedCoversChain TxIndexAgrees SpenderAgreesClean EntriesFound CoinStatsAgree FiltersAgree RunningStateAgrees EmitRowsS
+INVARIANTS UtxoIsReplay NoIndexErrorClean OnlyKnownError SyncedCoversChain TxIndexAgrees SpenderAgreesClean EntriesFound CoinStatsAgree FiltersAgree FilterBytesAgree StaleFilterBytesAgree RunningStateAgrees EmitRowsS
 ACTION_CONSTRAINT EmitS
 CHECK_DEADLOCK FALSE
